@@ -46,7 +46,8 @@ COMPONENTS = {
 
 INVALID = ["lambda", "closure", "global", "import_global", "wrong_first", "no_param", "decorated", "kwargs_with_string",
            "global_in_default", "global_in_kwonly_default", "global_decorator_same_function", "global_in_annotation",
-           "global_in_nested_def"]
+           "global_in_nested_def", "kwonly_channel", "kwonly_channel_and_arg", "varargs_named_channel",
+           "varkw_named_channel", "channel_second"]
 
 
 def gen_body(rng, label, form):
@@ -190,6 +191,11 @@ def invalid_callable(d, name, shape):
         "import_global": "import os\ndef body(channel):\n    channel.send(os.getpid())\n",
         "wrong_first": "def body(chan, a=1):\n    chan.send(a)\n",
         "no_param": "def body():\n    pass\n",
+        "kwonly_channel": "def body(*, channel):\n    channel.send(1)\n",
+        "kwonly_channel_and_arg": "def body(*, channel, n=3):\n    channel.send(n)\n",
+        "varargs_named_channel": "def body(*channel):\n    channel[0].send(1)\n",
+        "varkw_named_channel": "def body(**channel):\n    pass\n",
+        "channel_second": "def body(a, channel):\n    channel.send(a)\n",
         "global_in_default": "LIMIT = 3\ndef body(channel, n=LIMIT):\n    channel.send(n)\n",
         "global_in_kwonly_default": "import os\ndef body(channel, *, sep=os.sep):\n    channel.send(sep)\n",
         "global_decorator_same_function": "def register(f):\n    return f\n@register\ndef body(channel):\n    channel.send(1)\n",
